@@ -771,7 +771,10 @@ def build_case(rng, shape=None):
 
     units = []
     qn = names(rng, hostonly=True)
-    units.append("q,%s,%d,%d" % (qn.hex(), rng.choice(KNOWN + [255]), rng.choice([1, 1, 1, 3, 255])))
+    qt = rng.choice(QTYPES_ODD) if rng.random() < 0.06 else rng.choice(KNOWN + [255])
+    nq = rng.choice([0, 2]) if rng.random() < 0.02 else 1      # the parser insists on exactly one question
+    for _ in range(nq):
+        units.append("q,%s,%d,%d" % (qn.hex(), qt, rng.choice([1, 1, 1, 3, 255])))
     if shape == "big16k":
         nrr = rng.choice([70, 90])
     elif shape == "big64k":
@@ -863,6 +866,10 @@ def escdot_case(rng):
     return "b:%d:0:0:0|%s" % (rng.randrange(65536), ";".join(units))
 
 
+# question types at and beyond the edges of the 16 bit TYPE field (also: unknown types inside it)
+QTYPES_ODD = [0, 99, 251, 65535, 65537, 65538, 65536 + 28, 70000, 131073, 16777217, 2147483647, -1, -2, -65535]
+
+
 def query_case(rng):
     seeds = seed_names()
     r = rng.random()
@@ -872,7 +879,8 @@ def query_case(rng):
         name = text_name(rand_labels(rng, hostish=True), rng.choice(["canon", "canon", "dot", "ddd"]))
     else:
         name = rng.choice([b"", b".", b"a..b", b"a" * 64, b"\\", b"\\1", b"\\300.com", b"x." * 130, text_name(labels_of_len(rng, rng.choice([253, 254, 255, 256])))])
-    return "c:%d:%d:%d:%d:%d|%s" % (rng.choice([1, 1, 1, 3, 255, 0, 2]), rng.choice(KNOWN + [255, 0, 65535]), rng.randrange(65536),
+    qt = rng.choice(QTYPES_ODD) if rng.random() < 0.15 else rng.choice(KNOWN + [255, 0, 65535])
+    return "c:%d:%d:%d:%d:%d|%s" % (rng.choice([1, 1, 1, 3, 255, 0, 2]), qt, rng.randrange(65536),
                                     rng.choice([0, 1, 1]), rng.choice([-1, 0, 0, 512, 1232, 4096, 65535, 65536, -5]), name.hex())
 
 
